@@ -121,15 +121,20 @@ def expr(e) -> str:
         return f"(YieldFrom {r})"
     return f"(Other {r})"
 
-def arg(a) -> str:
+def arg(a, has_default=False) -> str:
     if a is None:
         return "_"
-    return f"(A {hx(a.arg)} {rng(a)})"
+    return f"(A {hx(a.arg)} {rng(a)}{' 1' if has_default else ''})"
 
 def args(a) -> str:
-    po = "(" + " ".join(arg(x) for x in a.posonlyargs) + ")"
-    ar = "(" + " ".join(arg(x) for x in a.args) + ")"
-    kw = "(" + " ".join(arg(x) for x in a.kwonlyargs) + ")"
+    # defaults belong to the LAST len(defaults) positional parameters; kw_defaults align with kwonlyargs
+    pos = list(a.posonlyargs) + list(a.args)
+    nd = len(a.defaults)
+    dflt = {id(x) for x in pos[len(pos) - nd:]} if nd else set()
+    dflt |= {id(x) for x, d in zip(a.kwonlyargs, a.kw_defaults) if d is not None}
+    po = "(" + " ".join(arg(x, id(x) in dflt) for x in a.posonlyargs) + ")"
+    ar = "(" + " ".join(arg(x, id(x) in dflt) for x in a.args) + ")"
+    kw = "(" + " ".join(arg(x, id(x) in dflt) for x in a.kwonlyargs) + ")"
     return f"(args {po} {ar} {kw} {arg(a.vararg)} {arg(a.kwarg)})"
 
 def stmts(ss) -> str:
